@@ -35,6 +35,7 @@ SHIPPED_METERS_TO_FL = 3.28084 / 100   # the constant finding F4 is about
 SIG_F4 = 'altitude-to-FL-multiplies-by-METERS_TO_FL-which-is-not-the-inverse-of-FL_TO_METERS'
 SIG_SORT = 'single-mass-interpolator-takes-values-in-row-order-not-flight-level-order'
 SIG_SET = 'coverage-count-test-accepts-duplicate-node-plus-missing-node'
+SIG_ULP = 'tabulated-level-in-metres-does-not-survive-the-binary64-round-trip-through-FL_TO_METERS'
 SIG_PTF0 = 'ptf-climb-entry-of-0-fpm-becomes-a-cruise-row-and-the-generated-table-is-refused'
 
 HEADER = ('From Coq Require Import ZArith List Bool PrimFloat.\n'
@@ -540,7 +541,7 @@ def model_data(case):
 _DIRECT: dict = {}
 
 
-def impl_query(model, q):
+def impl_query(model, q, state=None):
     from AEIC.performance.models.legacy import Interpolator, ROCDFilter
     from AEIC.performance.types import AircraftState, SimpleFlightRules
     try:
@@ -566,7 +567,8 @@ def impl_query(model, q):
                 raise it
             perf = it(q['alt'], m)
         else:
-            perf = model.evaluate(AircraftState(q['alt'], q['m']), SimpleFlightRules[RULE[q['p']]])
+            st = state if state is not None else AircraftState(q['alt'], q['m'])
+            perf = model.evaluate(st, SimpleFlightRules[RULE[q['p']]])
         return ['Ok', float(perf.true_airspeed), float(perf.rate_of_climb), float(perf.fuel_flow)]
     except Exception as e:  # noqa: BLE001
         return ['Rej', classify_exc(e)]
@@ -711,7 +713,14 @@ def scale_of(corners):
 
 
 def judge_query(rows, q, res, units: Units):
-    """Property verdict for one query on a *valid* table.  Returns None (fine) or (description, signatures)."""
+    """Property verdict for one query on a *valid* table.  Returns None (fine) or (description, signatures).
+
+    Levels given directly: the exact reference at that level, bit-equality at tabulated points.
+    Altitudes in metres: if the altitude is `f * FL_TO_METERS` (binary64, the library's factor) for a tabulated level f
+    of the phase, the answer must be the one for level f -- exactly the tabulated values at a tabulated mass.  Where the
+    binary64 round trip (f * C) / C differs from f, an answer that is right for the level (f * C) / C instead is
+    attributed to finding FC06e (and to nothing else).  Any other altitude: the answer must be right for the exact
+    quotient alt / C or for its binary64 value."""
     pr = phase_rows(rows, q['p'])
     F, M, nodes, _ = grid_facts(pr)
     allm = sorted({r[1] for r in rows})
@@ -721,24 +730,11 @@ def judge_query(rows, q, res, units: Units):
     elif mass == 'max':
         mass = allm[-1]
     mass = Fr(mass)
-    flm = Fr(units.FL_TO_METERS)
-    qx = Fr(q['alt']) if q['d'] else Fr(q['alt']) / flm
+    C = units.FL_TO_METERS
 
-    def verdict(qfl: Fr, positional: bool, slack: bool):
+    def verdict(qfl: Fr, positional: bool = False):
         """None if `res` is what the exact reference demands at flight level qfl, else a description."""
-        lo_ok, hi_ok = Fr(F[0]), Fr(F[-1])
-        qe = qfl
-        if slack and not (lo_ok <= qfl <= hi_ok):
-            # within one ulp outside the envelope after the unit conversion: either answer is right
-            if Fr(nxt(F[0], False)) <= qfl < lo_ok:
-                if res[0] == 'Rej':
-                    return None
-                qe = lo_ok
-            elif hi_ok < qfl <= Fr(nxt(F[-1], True)):
-                if res[0] == 'Rej':
-                    return None
-                qe = hi_ok
-        ref = ref_eval(pr, qe, mass, positional)
+        ref = ref_eval(pr, qfl, mass, positional)
         if ref[0] == 'rej':
             if res[0] == 'Rej':
                 return None
@@ -748,7 +744,7 @@ def judge_query(rows, q, res, units: Units):
         vals, corners = ref[1], ref[2]
         sc = scale_of(corners)
         got = res[1:]
-        on_node = (not slack) and any(Fr(f) == qfl for f in F) and (len(M) == 1 or any(Fr(m) == mass for m in M))
+        on_node = any(Fr(f) == qfl for f in F) and (len(M) == 1 or any(Fr(m) == mass for m in M))
         for name, g, want, cs in zip(('true_airspeed', 'rate_of_climb', 'fuel_flow'), got, vals, corners):
             if not math.isfinite(g):
                 return f'{name} not finite: {g}'
@@ -760,29 +756,46 @@ def judge_query(rows, q, res, units: Units):
             hi = float(max(cs)) + 1e-10 * sc
             if not (lo <= g <= hi):
                 return f'{name}={g!r} outside the surrounding table values [{float(min(cs))!r}, {float(max(cs))!r}]'
-            # at / next to a tabulated point (node expressed in metres, +-1 ulp probes): must be the table value
-            # up to the rounding of the unit conversion; exact(q) carries that displacement
             if abs(Fr(g) - want) > Fr(1e-11) * Fr(sc):
-                if q['tag'].startswith(('node', 'cont', 'edge', 'sym')):
+                if q['tag'].startswith(('node', 'cont', 'edge', 'sym', 'shared')):
                     return (f'{name}={g!r} but the table gives {float(want)!r} at flight level '
                             f'{float(qfl)!r}, mass {float(mass)!r}')
         return None
 
-    plain = verdict(qx, False, slack=not q['d'])
+    sigs = []
+    if q['d']:
+        levels = [Fr(q['alt'])]
+        plain = verdict(levels[0])
+    else:
+        alt = q['alt']
+        rt = alt / C                                              # the library's factor, binary64
+        node = next((f for f in F if f * C == alt), None)
+        if node is not None:
+            levels = [Fr(node)]
+            plain = verdict(Fr(node))
+            if plain is not None and rt != node and verdict(Fr(rt)) is None:
+                plain = (f'tabulated level {node!r} expressed in metres ({alt!r}) comes back as '
+                         f'{rt!r} in binary64: ' + plain)
+                sigs = [SIG_ULP]
+        else:
+            levels = [Fr(alt) / Fr(C), Fr(rt)]
+            plain = verdict(levels[0])
+            if plain is not None and verdict(levels[1]) is None:
+                plain = None
     if plain is None:
         return None
-    # which known defect hypotheses explain the observed answer exactly?
-    sigs = []
+    if sigs:
+        return plain, sigs
+    # which other known defect hypotheses explain the observed answer exactly?
     hyps = []
     if not q['d'] and units.METERS_TO_FL == SHIPPED_METERS_TO_FL:
-        hyps.append(('F4', Fr(q['alt']) * Fr(SHIPPED_METERS_TO_FL), False))
+        hyps.append(('F4', [Fr(q['alt']) * Fr(SHIPPED_METERS_TO_FL), Fr(q['alt'] * SHIPPED_METERS_TO_FL)], False))
     if q['p'] == 'Descent' and len(M) == 1:
-        hyps.append(('SORT', qx, True))
+        hyps.append(('SORT', levels, True))
         if not q['d'] and units.METERS_TO_FL == SHIPPED_METERS_TO_FL:
-            hyps.append(('F4+SORT', Fr(q['alt']) * Fr(SHIPPED_METERS_TO_FL), True))
-    for name, qh, pos in hyps:
-        # the float product alt*METERS_TO_FL is within an ulp of the exact one: allow the same envelope slack
-        if verdict(qh, pos, slack=True) is None:
+            hyps.append(('F4+SORT', [Fr(q['alt']) * Fr(SHIPPED_METERS_TO_FL), Fr(q['alt'] * SHIPPED_METERS_TO_FL)], True))
+    for name, lvls, pos in hyps:
+        if any(verdict(lv, pos) is None for lv in lvls):
             sigs = {'F4': [SIG_F4], 'SORT': [SIG_SORT], 'F4+SORT': [SIG_F4, SIG_SORT]}[name]
             break
     return plain, sigs
@@ -1000,6 +1013,25 @@ def gen_session_case(rng, flm):
     for k in range(len(qs)):
         for i in range(n):
             ops.append(['q', i, k])
+    # a table with another grid and other masses, and ONE state object per (altitude, symbolic mass) handed to every
+    # model in every phase: a call must not write to its argument, and each model must use its own extreme mass
+    other, _ = gen_valid_rows(rng)
+    oq = gen_queries(rng, other, flm, dense=False)
+    tabs.append({'rows': other, 'layout': gen_layout(rng), 'queries': rng.sample(oq, min(10, len(oq)))})
+    ops.append(['new', n])
+    for k in range(len(tabs[n]['queries'])):
+        ops.append(['q', n, k])
+    shared = []
+    for sid in range(3):
+        pr = phase_rows(base, rng.choice(PHASES))
+        fs = [r[0] for r in pr]
+        shared.append((rng.uniform(min(fs), max(fs)) * flm, rng.choice(['min', 'max'])))
+    for sid, (a, sym) in enumerate(shared):
+        for p in PHASES:
+            for i in (list(range(n + 1)) if sid % 2 == 0 else list(range(n, -1, -1))):
+                tabs[i]['queries'].append({'d': False, 'p': p, 'alt': float(a), 'm': sym, 'tag': 'shared-state',
+                                           'g': None, 'sid': sid})
+                ops.append(['q', i, len(tabs[i]['queries']) - 1])
     ops.append(['new', 0])
     for k in rng.sample(range(len(qs)), min(12, len(qs))):
         ops.append(['q', 0, k])
@@ -1012,9 +1044,12 @@ def gen_session_case(rng, flm):
 
 def impl_session(case):
     from AEIC.performance.models import PerformanceModel
+    from AEIC.performance.types import AircraftState
     inst: dict = {}
-    out = []
+    states: dict = {}
+    out, muts = [], []
     for op in case['ops']:
+        mut = None
         if op[0] == 'new':
             try:
                 inst[op[1]] = PerformanceModel.from_data(model_data(case['tables'][op[1]]))
@@ -1024,8 +1059,16 @@ def impl_session(case):
                 out.append(classify_exc(e))
         else:
             m = inst.get(op[1])
-            out.append(['Rej', 'NotLoaded'] if m is None else impl_query(m, case['tables'][op[1]]['queries'][op[2]]))
-    return out
+            q = case['tables'][op[1]]['queries'][op[2]]
+            st = None
+            if q.get('sid') is not None:
+                st = states.setdefault(q['sid'], AircraftState(q['alt'], q['m']))
+            out.append(['Rej', 'NotLoaded'] if m is None else impl_query(m, q, state=st))
+            if st is not None and (st.altitude, st.aircraft_mass, st.true_airspeed, st.rate_of_climb) != \
+                    (q['alt'], q['m'], None, None):
+                mut = f'AircraftState({q["alt"]!r}, {q["m"]!r}) is now {st!r}'
+        muts.append(mut)
+    return out, muts
 
 
 def check_sessions(chk: Check, cases, sw, units: Units):
@@ -1036,12 +1079,13 @@ def check_sessions(chk: Check, cases, sw, units: Units):
             exprs.append(coq_table_expr({'rows': t['rows'], 'queries': t['queries']}, sw))
             where.append((ci, ti))
     model = dict(zip(where, chk.coq_eval(HEADER, exprs, shard=25, label='sessions')))
-    for ci, (c, outs) in enumerate(zip(cases, impls)):
+    for ci, (c, (outs, muts)) in enumerate(zip(cases, impls)):
         chk.case({'kind': 'session', 'n_tables': len(c['tables']), 'n_ops': len(c['ops']),
                   'rows0': c['tables'][0]['rows']}, nontrivial=True)
         chk.count('session:cases')
         chk.count('session:ops', len(c['ops']))
         failed = False
+        pending_mut = None
         first: dict = {}
         for oi, (op, r) in enumerate(zip(c['ops'], outs)):
             if op[0] == 'new':
@@ -1053,11 +1097,22 @@ def check_sessions(chk: Check, cases, sw, units: Units):
             t = c['tables'][op[1]]
             q = t['queries'][op[2]]
             chk.count('session:query:' + q['tag'])
+            if muts[oi] is not None and pending_mut is None:
+                pending_mut = (oi, f'session op {oi} (model {op[1]}, {q["p"]}): evaluate wrote to the state it was '
+                                   f'given: {muts[oi]}')
             j = judge_query(t['rows'], q, r, units)
             if j is not None:
                 desc, sigs = j
+                if sigs:           # a known-finding pattern on this call: record it and go on with the session
+                    for sg in sigs:
+                        chk.fail(f"session op {oi} (model {op[1]}, {q['tag']} {q['p']}): {desc}",
+                                 {**c, 'first_bad_op': oi, 'impl': r}, signature=sg)
+                    failed = True
+                    first.setdefault((op[1], op[2]), r)
+                    continue
                 for sg in (sigs or [None]):
-                    chk.fail(f"session op {oi} (model {op[1]}, {q['tag']} {q['p']}): {desc}",
+                    chk.fail(f"session op {oi} (model {op[1]}, {q['tag']} {q['p']}): {desc}"
+                             + (f' [earlier: {pending_mut[1]}]' if pending_mut else ''),
                              {**c, 'first_bad_op': oi, 'impl': r}, signature=sg)
                 failed = True
                 break
@@ -1068,9 +1123,15 @@ def check_sessions(chk: Check, cases, sw, units: Units):
                 failed = True
                 break
             first.setdefault(key, r)
+        if pending_mut is not None:
+            # reported after any wrong answer it caused, so that the replay shows the consequence first
+            chk.fail(pending_mut[1], {**c, 'first_bad_op': pending_mut[0]})
+            failed = True
         bad = None
         for oi, (op, r) in enumerate(zip(c['ops'], outs)):
             mo = model.get((ci, op[1]))
+            if pending_mut is not None and oi >= pending_mut[0]:
+                break
             if op[0] != 'q' or mo is None:
                 continue
             if norm_err(mo[0]) is not None:
